@@ -31,7 +31,7 @@ META = {
     "bounds": "atom argument length 2 (vector atoms) / 2 elements (element-wise atoms); one constraint per model plus bounds",
     "trusted_base": ["z3/cvc5 (NRA + EUF)", "M5/M6: the textbook cone forms of exp/log/entropy/softplus/KL (mathematics)", "ShimCSR, NumPy on object arrays"],
     "assumptions": ["A-UFEXP: exponential-cone atoms are judged through an uninterpreted cone predicate",
-                    "p-norm/power/geometric-mean: call-site contracts here, the tower lemma itself in C07; not covered: 'N' p-norm via exp cones, log-det/root-det LMIs"],
+                    "p-norm/power/geometric-mean: call-site contracts here, the tower lemma itself in C07; 'N' p-norms via exponential cones only through a sampled numerical stand-in (ECOS); not covered: log-det/root-det LMIs"],
 }
 
 
@@ -712,11 +712,67 @@ def objective_case(name, which=("sound", "exact")):
     return obs
 
 
+def pnorm_exp_cone_sampled():
+    """BOUNDED, numerical stand-in for the one atom whose cone form is outside the symbolic vocabulary: p-norms compiled
+    through exponential cones (float degree, or method='exc').  Pinned arguments: min t s.t. pnorm(x, p) <= t must return
+    ||x||_p; max c.x s.t. pnorm(x, p) <= 1 must return the dual norm ||c||_q (ECOS, tolerance 1e-5)."""
+    import warnings
+    from .. import install
+    from .c18 import _quiet
+    install.uninstall()
+    import rsome as rso
+    from rsome import ro as nro, eco_solver as eco
+    out = []
+    degrees = [(1.5, None), (2.5, None), (3.0, None), (4.25, None), (3, "exc"), ((5, 2), "exc")]
+    points = [np.array([1.0, -2.0, 0.5]), np.array([-0.5, -0.5, -3.0]), np.array([2.0, 0.0, -1.0]), np.array([0.25, 4.0, 1.0])]
+
+    def pval(d):
+        return d[0] / d[1] if isinstance(d, tuple) else float(d)
+
+    for deg, method in degrees:
+        def run(deg=deg, method=method):
+            p_ = pval(deg)
+            q_ = p_ / (p_ - 1)
+            kw = {} if method is None else {"method": method}
+            for xv in points:
+                m = nro.Model()
+                x = m.dvar(3)
+                t = m.dvar()
+                m.min(t)
+                m.st(rso.pnorm(x, deg, **kw) <= t, x == xv)
+                with warnings.catch_warnings(), _quiet():
+                    warnings.simplefilter("ignore")
+                    m.solve(eco, display=False)
+                want = float(np.sum(np.abs(xv) ** p_) ** (1 / p_))
+                if abs(m.get() - want) > 1e-5 * (1 + want):
+                    return f"min t s.t. pnorm(x,{deg}) <= t at x={xv.tolist()}: {m.get():.6f}, ||x||_p = {want:.6f}"
+                m = nro.Model()
+                x = m.dvar(3)
+                m.max(xv @ x)
+                m.st(2 * rso.pnorm(x, deg, **kw) <= 2)
+                with warnings.catch_warnings(), _quiet():
+                    warnings.simplefilter("ignore")
+                    m.solve(eco, display=False)
+                want = float(np.sum(np.abs(xv) ** q_) ** (1 / q_))
+                if abs(m.get() - want) > 1e-5 * (1 + want):
+                    return f"max c.x s.t. pnorm(x,{deg}) <= 1 with c={xv.tolist()}: {m.get():.6f}, dual norm = {want:.6f}"
+            return True
+        obs, _ = check_function("rsome.gcp:Model.do_math(primal) ['N' branch]", lambda c: {}, lambda ns, run=run: run(),
+                                [post("p-norm-through-exponential-cones-equals-the-p-norm (sampled, ECOS)", lambda ns, res: res is True)],
+                                mode="N", label=f"degree={deg}, method={method}: {len(points)} pinned points x 2 models", bounded=True, replay=None)
+        for o in obs:
+            if o["status"] == "violated":
+                o["reason"] = (o.get("reason") or "") + " | " + str(run())
+        out += obs
+    return out
+
+
 def jobs(tier):
     js = [{"name": f"constr-{n}", "kind": "constr", "case": n} for n in CASES]
     js += [{"name": f"objective-{n}", "kind": "objective", "case": n} for n in OBJECTIVES]
     # p-norm / power / geometric mean: soundness = (call-site contract of the G/T/C branches) + (tower lemma, C07)
     js.append({"name": "tower-callsites", "kind": "tower_callsites"})
+    js.append({"name": "pnorm-exp-cone-sampled", "kind": "pnorm_sampled"})
     return js
 
 
@@ -725,6 +781,8 @@ def run_job(job):
         return constraint_case(job["case"], "ro", ("sound",))
     if job["kind"] == "objective":
         return objective_case(job["case"], ("sound",))
+    if job["kind"] == "pnorm_sampled":
+        return pnorm_exp_cone_sampled()
     if job["kind"] == "tower_callsites":
         from . import c07
         return c07.tower_callsites()
